@@ -14,7 +14,7 @@ DOC = {
 def run(tier):
     return fsmfam.run_fsm(
         "C02", tier, "c02", preds=PREDS, doc=DOC,
-        mc={"quick": {"MaxLog": 2}, "thorough": {"MaxLog": 3}},
+        mc={"quick": {"MaxLog": 2}, "thorough": {"MaxLog": 2}},
         params={"quick": [dict(n=12, len=80, mix="rotate", cuts=6)],
                 "thorough": [dict(n=20, len=50, mix="rotate", cuts=0), dict(n=120, len=160, mix="rotate", cuts=10)]},
         assumptions=["TLC evaluates spec/ReplicasTrace.tla correctly",
